@@ -82,10 +82,13 @@ type ClosureV struct {
 type TupleV []Value
 
 type ChanV struct {
-	id  int
-	buf []Value
-	cap int
+	id     int
+	buf    []Value
+	cap    int
 	closed bool
+	// onBlock, if set, is called when the only thing the (single) goroutine can do is wait on this channel: it
+	// models the passage of time until a context deadline fires and closes the channel.
+	onBlock func()
 }
 
 type IterV struct {
